@@ -95,19 +95,16 @@ CIRCUS_OPTIONS = {
     'loggerconfig': (STR, NODEFAULT),
 }
 
-# "socket:NAME - as many sections as you want"
+# "socket:NAME - as many sections as you want".  Only the kinds are kept (to read a value once a
+# reference in it is expanded): what a socket does with its options, their typing and their defaults
+# are not part of the property, which is about what each WATCHER receives.
 SOCKET_OPTIONS = {
-    'host': (STR, 'localhost'),               # "Defaults to 'localhost'"
-    'port': (INT, 8080),                      # "Defaults to 8080."
-    'family': (STR, 'AF_INET'),
-    'type': (STR, 'SOCK_STREAM'),
+    'host': (STR, NODEFAULT),
+    'port': (INT, NODEFAULT),
+    'family': (STR, NODEFAULT),
+    'type': (STR, NODEFAULT),
     'interface': (STR, NODEFAULT),
     'path': (STR, NODEFAULT),
-    'umask': ('octal', None),                 # "When provided, sets the umask ... `umask=000` will
-                                              #  produce a socket with permission `777`."
-    'replace': (BOOL, NODEFAULT),
-    'so_reuseport': (BOOL, NODEFAULT),
-    'blocking': (BOOL, False),                # "(default: False)"
 }
 
 _REF = re.compile(r'\$\(circus\.env\.([A-Za-z0-9_]+)\)|\(\(circus\.env\.([A-Za-z0-9_]+)\)\)', re.I)
@@ -317,12 +314,15 @@ def read(path, environ, sys_path=None):
             rec = {'rlimits': {}, 'stdout_stream': {}, 'stderr_stream': {}, 'hooks': {}, 'free': {}}
             plain = []
             for k, v in items:
-                low = k.lower()
-                if low.startswith('rlimit_'):
-                    # "The config name should match the RLIMIT_* constants (not case sensitive)";
+                if k.startswith('rlimit_'):
+                    # "**rlimit_LIMIT** ... The config name should match the RLIMIT_* constants (not
+                    #  case sensitive)": LIMIT may be written in any case;
                     # "To set a limit value to RLIM_INFINITY, do not set a value"
                     v = expand(v, layers)
-                    rec['rlimits'][low[len('rlimit_'):]] = INFINITY if v == '' else typed(INT, v)
+                    rec['rlimits'][k[len('rlimit_'):].lower()] = INFINITY if v == '' else typed(INT, v)
+                elif k.lower().startswith('rlimit_'):
+                    # the documented option is spelled rlimit_LIMIT; another spelling of the prefix has no meaning
+                    raise Undefined('option %r: prefix not spelled rlimit_' % k)
                 elif k.startswith('stdout_stream.') or k.startswith('stderr_stream.'):
                     # "All options starting with *stdout_stream.* other than *class* will be passed
                     #  the constructor"
